@@ -38,6 +38,8 @@ def plan(tier):
             m0 = (L + 1) // 2
             for m in range(m0, m0 + nm):
                 items.append({'dim': 1, 'wave': w, 'J': J, 'n': m * 2 ** J})
+            if J in (1, 3):
+                items.append({'dim': 1, 'wave': w, 'J': J, 'n': m0 * 2 ** J, 'mode': 'per'})        # the documented alias
         if L <= 8:
             for J in range(1, (2 if tier == 'quick' else 3) + 1):
                 m0 = (L + 1) // 2
@@ -49,7 +51,7 @@ def plan(tier):
 
 
 def required_regimes(tier):
-    return {'dim:1', 'dim:2', '2d:h!=w', 'J:1', 'J:4', 'min_admissible', 'fam:db', 'fam:sym', 'fam:coif', 'fam:haar'}
+    return {'dim:1', 'dim:2', '2d:h!=w', 'J:1', 'J:4', 'min_admissible', 'fam:db', 'fam:sym', 'fam:coif', 'fam:haar', 'mode_alias:per'}
 
 
 def run(item):
@@ -60,10 +62,10 @@ def run(item):
     res = Res()
     w, J, dim = item['wave'], item['J'], item['dim']
     L = dwt.flen(w)
-    mode = 'periodization'
+    mode = item.get('mode', 'periodization')
     shape = (item['n'],) if dim == 1 else (item['h'], item['w'])
     cfg = dict(item)
-    tags = ['dim:%d' % dim, 'J:%d' % J, 'fam:' + ''.join(c for c in w if c.isalpha())]
+    tags = ['dim:%d' % dim, 'J:%d' % J, 'fam:' + ''.join(c for c in w if c.isalpha())] + (['mode_alias:per'] if mode == 'per' else [])
     if dim == 2 and shape[0] != shape[1]:
         tags.append('2d:h!=w')
     if min(shape) // 2 ** (J - 1) in (L, L + 1):
@@ -73,15 +75,15 @@ def run(item):
     X = common.eye_batch(shape)
     # reference defect
     if dim == 1:
-        co = pywt.wavedec(X[:, 0], w, mode=mode, level=J, axis=-1)
-        Ar = np.concatenate([c.reshape(P, -1) for c in co], axis=1).T
+        co = pywt.wavedec(X[:, 0], w, mode='periodization', level=J, axis=-1)
+        Ar = np.concatenate([co[0].reshape(P, -1)] + [co[J - j].reshape(P, -1) for j in range(J)], axis=1).T     # lowpass, finest..coarsest
         fwd = DWT1DForward(J=J, wave=w, mode=mode)
         inv = DWT1DInverse(wave=w, mode=mode)
     else:
-        co = pywt.wavedec2(X[:, 0], w, mode=mode, level=J, axes=(-2, -1))
+        co = pywt.wavedec2(X[:, 0], w, mode='periodization', level=J, axes=(-2, -1))
         cols = [co[0].reshape(P, -1)]
-        for lev in co[1:]:
-            cols += [c.reshape(P, -1) for c in lev]
+        for j in range(J):                                                        # finest..coarsest, (LH, HL, HH) stacked per level
+            cols.append(np.stack(co[J - j], axis=1).reshape(P, -1))
         Ar = np.concatenate(cols, axis=1).T
         fwd = DWTForward(J=J, wave=w, mode=mode)
         inv = DWTInverse(wave=w, mode=mode)
@@ -108,6 +110,10 @@ def run(item):
             d['defect_ref'] = defect
             res.violation('orthogonality', cfg, d, tags)
     res.op(A)
+    d = cmp_mats(A, Ar, tol=max(common.TOL, 1e-12))
+    if d is not None:
+        d['identity'] = 'A = PyWavelets periodization operator'
+        res.violation('orthogonality', cfg, d, tags)
     # synthesis operator on the complete coefficient basis
     base = [torch.zeros((1,) + s) for s in bshapes]
 
